@@ -297,6 +297,11 @@ func seqAxioms(S, E string) string {
 (assert (forall ((s $S)) (! (= ($S.drop s 0) s) :pattern (($S.drop s 0)))))
 (assert (forall ((s $S)) (! (= ($S.take s 0) $S.empty) :pattern (($S.take s 0)))))
 (assert (forall ((s $S)) (! (= ($S.drop s ($S.len s)) $S.empty) :pattern (($S.drop s ($S.len s))))))
+(assert (forall ((a $S) (b $S) (n Int)) (! (=> (and (<= 0 n) (<= n ($S.len a))) (= ($S.take ($S.cat a b) n) ($S.take a n))) :pattern (($S.take ($S.cat a b) n)))))
+(assert (forall ((a $S) (b $S) (n Int)) (! (=> (and (<= ($S.len a) n) (<= n (+ ($S.len a) ($S.len b)))) (= ($S.drop ($S.cat a b) n) ($S.drop b (- n ($S.len a))))) :pattern (($S.drop ($S.cat a b) n)))))
+(assert (forall ((s $S) (n Int) (k Int)) (! (=> (and (<= 0 k) (<= k n) (<= n ($S.len s))) (= ($S.take ($S.take s n) k) ($S.take s k))) :pattern (($S.take ($S.take s n) k)))))
+(assert (forall ((s $S) (n Int) (k Int)) (! (=> (and (<= 0 n) (<= 0 k) (<= (+ n k) ($S.len s))) (= ($S.drop ($S.drop s n) k) ($S.drop s (+ n k)))) :pattern (($S.drop ($S.drop s n) k)))))
+(assert (forall ((s $S) (n Int)) (! (=> (and (<= 0 n) (<= n ($S.len s))) (= ($S.cat ($S.take s n) ($S.drop s n)) s)) :pattern (($S.cat ($S.take s n) ($S.drop s n))))))
 (assert (forall ((s $S)) (! (= ($S.cat s $S.empty) s) :pattern (($S.cat s $S.empty)))))
 (assert (forall ((s $S)) (! (= ($S.cat $S.empty s) s) :pattern (($S.cat $S.empty s)))))
 `)
@@ -334,6 +339,8 @@ const stringAxioms = `(declare-fun utf8.enc1 (Int) Sq_Int)
 (assert (forall ((s Sq_Int)) (! (<= (Sq_Int.len (utf8.dec s)) (Sq_Int.len s)) :pattern ((utf8.dec s)))))
 (assert (forall ((s Sq_Int)) (! (<= (Sq_Int.len s) (Sq_Int.len (utf8.enc s))) :pattern ((utf8.enc s)))))
 (assert (forall ((s Sq_Int)) (! (=> (> (Sq_Int.len s) 0) (> (Sq_Int.len (utf8.dec s)) 0)) :pattern ((utf8.dec s)))))
+(assert (forall ((s Sq_Int)) (! (=> (and (> (Sq_Int.len s) 0) (<= 0 (Sq_Int.at s 0)) (<= (Sq_Int.at s 0) 255)) (ite (< (Sq_Int.at s 0) 128) (= (Sq_Int.at (utf8.dec s) 0) (Sq_Int.at s 0)) (>= (Sq_Int.at (utf8.dec s) 0) 128))) :pattern ((utf8.dec s)))))
+(assert (forall ((s Sq_Int)) (! (=> (and (= (Sq_Int.len s) 1) (<= 0 (Sq_Int.at s 0)) (<= (Sq_Int.at s 0) 255)) (= (Sq_Int.len (utf8.dec s)) 1)) :pattern ((utf8.dec s)))))
 `
 
 func and(ts ...string) string {
